@@ -96,7 +96,8 @@ static void case_block(uint64_t idx, vh_rng *r)
         } else if (op <= 4 && ci.tweaked) {
             int null = !vh_below(r, 6);
             if (!vh_below(r, 8)) { bool rr; vh_call_begin("setTweak(bad length)"); rr = o->setTweak(ci_i, tweak, tl + 1 + vh_below(r, 3)); vh_call_end(); if (rr) bad = "setTweak-accepted-wrong-length"; VH_COUNT("invalid_length_calls", 1); }
-            memset(tweak, 0, 16); if (!null) vh_fill_interesting(r, tweak, tl);
+            if (!null && !vh_below(r, 5)) VH_COUNT("tweak_set_to_its_current_value_again", 1);     /* same tweak again: must behave like any other tweak change */
+            else { memset(tweak, 0, 16); if (!null) vh_fill_interesting(r, tweak, tl); }
             vh_call_begin("setTweak"); if (!o->setTweak(ci_i, null ? NULL : tweak, tl)) bad = "setTweak-rejected-valid-tweak"; vh_call_end();
             VH_COUNT("tweak_changes", 1); if (null) VH_COUNT("null_tweaks", 1);
             hh = vh_hash(tweak, 16, hh);
